@@ -191,14 +191,19 @@ Definition child_edges (X : list triple) (ns : list Z) : list edge :=
 Definition doomed (X : list triple) (ns : list Z) (target : Z) : list Z :=
   reach (child_edges X ns) target.
 
-Definition spec_out (c : case) : list Z :=
+(* the value returned by delete: the node existed, or references to/from it were removed *)
+Definition spec_ret (c : case) : bool :=
+  let X := ref_set [] (c_refs c) in
+  memZ (c_target c) (c_nodes c)
+  || (c_dtr c && existsb (fun x => (src x =? c_target c) || (tgt x =? c_target c)) X).
+
+(* surviving nodes and surviving references (forward map, buckets in insertion order) *)
+Definition spec_body (c : case) : list Z :=
   let X := ref_set [] (c_refs c) in
   let D := doomed X (c_nodes c) (c_target c) in
   let gone x := memZ x D in
   let X' := if c_dtr c then filter (fun x => negb (gone (src x)) && negb (gone (tgt x))) X else X in
-  let ret := memZ (c_target c) (c_nodes c)
-             || (c_dtr c && existsb (fun x => (src x =? c_target c) || (tgt x =? c_target c)) X) in
-  [Z.b2z ret; -1]
+  [-1]
   ++ filter (fun x => memZ x (c_nodes c) && negb (gone x)) (c_univ c)
   ++ [-5]
   ++ flat_map (fun n => match map (fun x => (typ x, tgt x)) (filter (fun x => src x =? n) X') with
@@ -206,12 +211,16 @@ Definition spec_out (c : case) : list Z :=
                         | b => n :: Z.of_nat (length b) :: C28.Model.flat_pairs b
                         end) (c_univ c).
 
-(* the property: delete returned (no abort, no endless loop), the surviving nodes are exactly the
-   nodes that are not doomed, the surviving references exactly those that mention no doomed node
-   (all references when delete_target_references is false).  The referenced-by dump after the -8
-   marker is compared between model and implementation only. *)
+(* the property: delete returned (no abort [-3], no endless loop [-4], no panic [-2]), the
+   surviving nodes are exactly the nodes that are not doomed, the surviving references exactly
+   those that mention no doomed node (all references when delete_target_references is false).
+   The returned flag is not part of the property (see C29_return_value for the model); the
+   referenced-by dump after the -8 marker is compared between model and implementation only. *)
 Definition oracle (c : case) (out : list Z) : bool :=
-  C28.Model.prefix_eqb (spec_out c ++ [-8]) out.
+  match out with
+  | r :: rest => ((r =? 0) || (r =? 1)) && C28.Model.prefix_eqb (spec_body c ++ [-8]) rest
+  | [] => false
+  end.
 
 Definition known (c : case) : Z := 0.
 
